@@ -119,6 +119,10 @@ def c13(ctx):
         rows += gen.twin_early_polls(ctx.rng, ctx.q(500, 1500), to, base_id=400)
         rows += gen.twin_time(ctx.rng, ctx.q(300, 1000), to, base_id=500)
     run_script(ctx, rows, "twin-early-polls+time")
+    rows = []
+    for i, to in enumerate((1, 5, 1000)):
+        rows += gen.sweep_pn_values(ctx.rng, "poll", step=ctx.q(16, 2), to=to, first_id=600 + i, sweeps=not ctx.quick or to == 5)
+    run_script(ctx, rows, "special-numbers-early-and-late-polls")
     canary(ctx, trace, corrupt_out("poll", op=("poll",), need_report=ctx.rng.random() < 0.5))
     need = ["poll.early.pending", "poll.late.pending", "poll.late.lsb", "poll.early.flag", "twin.C13", "C13l"]
     vacuity(ctx, need)
